@@ -23,8 +23,9 @@ Binding
     merged schema must refuse every way of saving.
 
 Violation keys (format and cause first, so that one defect = one prefix):
-    <fmt>:<Section>:<what>[:<description kind>]:neq:<merged|unmerged>       reloaded schema != original (`==`)
-    <fmt>:<Section>:<field>[:<kind>]:state:<mode>                           reloaded library entries != specification state
+    <fmt>:<Section>:<what>:neq:<merged|unmerged>                            reloaded schema != original (`==`)
+    <fmt>:desc:<description kind>:<Section>:neq:<mode>                      ... because a description changed
+    <fmt>:<Section>:<field>:state:<mode>  /  <fmt>:desc:<kind>:<Section>:state:<mode>    reloaded library entries != specification state
     <fmt>:<...>:differs-from-<fmt0>:<mode>                                  formats disagree although each equals the original
     <fmt>:raises-save|raises-load:<Exception[:code]>:<mode>
     xml-file:<section>:<library|partner>:<field>[:<kind>]:<mode>            independent reading of the saved XML vs specification
@@ -147,7 +148,9 @@ def diagnose(a, b, kinds=None):
         return "prologue", "prologue %r vs %r" % (a.prologue[:60], b.prologue[:60])
     if a.epilogue.strip() != b.epilogue.strip():
         return "epilogue", "epilogue %r vs %r" % (a.epilogue[:60], b.epilogue[:60])
-    for key in HedSectionKey:
+    order = [HedSectionKey.Properties, HedSectionKey.Attributes, HedSectionKey.UnitModifiers, HedSectionKey.Units,
+             HedSectionKey.UnitClasses, HedSectionKey.ValueClasses, HedSectionKey.Tags]
+    for key in order + [k for k in HedSectionKey if k not in order]:
         A, B = a[key].all_names, b[key].all_names
         if A == B:
             continue
@@ -161,9 +164,11 @@ def diagnose(a, b, kinds=None):
             if A[k] != B[k]:
                 ea, eb = A[k], B[k]
                 if ea.description != eb.description:
-                    kd = kinds.get((key.name, ea.name.split("/")[-1] if key == HedSectionKey.Tags and not ea.name.endswith("#")
-                                    else ea.name), "")
-                    return ("%s:desc%s" % (key.name, ":" + kd if kd else ""),
+                    sid = ea.name
+                    if key == HedSectionKey.Tags:
+                        sid = ea.short_tag_name + ("/#" if ea.name.endswith("/#") else "")
+                    kd = kinds.get((key.name, sid), "")
+                    return ("desc:%s:%s" % (kd or "any", key.name),
                             "%s description %r became %r" % (ea.name, ea.description, eb.description))
                 if ea.attributes != eb.attributes:
                     d = sorted(x for x in set(ea.attributes) | set(eb.attributes) if ea.attributes.get(x) != eb.attributes.get(x))
@@ -589,8 +594,8 @@ def execute(item):
                     fld = "missing" if a is None else "extra" if b is None else [f for f in b if a.get(f) != b[f]][0]
                     kd = conc["kinds"].get("%s:%s" % ({"tags": "Tags", "ucs": "UnitClasses", "units": "Units", "others": "ValueClasses"}[sec], ks[0].split(":")[-1]), "")
                     sname = {"tags": "Tags", "ucs": "UnitClasses", "units": "Units", "others": "ValueClasses"}[sec]
-                    res["problems"].append(("%s:%s:%s%s:state:%s" % (fmt, sname, fld, ":" + kd if fld == "desc" and kd else "",
-                                                                     "merged" if merged else "unmerged"),
+                    what = "desc:%s:%s" % (kd or "any", sname) if fld == "desc" else "%s:%s" % (sname, fld)
+                    res["problems"].append(("%s:%s:state:%s" % (fmt, what, "merged" if merged else "unmerged"),
                                             "schema reloaded from the %s %s file has %s %r = %s, the original has %s"
                                             % ("merged" if merged else "unmerged", fmt, sec, ks[0], a, b)))
                     break
@@ -598,6 +603,9 @@ def execute(item):
             p = paths.get((merged, "xml"))
             if p:
                 res["problems"] += judge_xml(p, merged, case, conc)
+        # a TSV file that cannot even be tokenised: name the description kind that is known to do this when it is present
+        if "qstart" in conc["kinds"].values():
+            res["problems"] = [("tsv:desc:qstart:" + k[4:], t) if k.startswith("tsv:raises-load:") else (k, t) for k, t in res["problems"]]
         # second generation: a schema that was LOADED FROM A MERGED file is saved again (header says merged)
         fmt2 = FORMATS[item["id"] % 3]
         r = objs.get((True, fmt2))
@@ -754,7 +762,7 @@ def _run_rest(ctx, pool, rb, rm):
                      label="generation: every schema reachable by <= 2 edits with the saved-XML rows the specification prescribes")
         cases = [j for j in rg.json_lines if "edits" in j]
         base0 = [j for j in rg.json_lines if "base" in j]
-        nsim = 100 if quick else 2500
+        nsim = 100 if quick else 1200
         rs = ctx.tlc("MC_SchemaStore", "MC_SchemaStore_sim.cfg", workers=1, mode="simulate", simulate="num=%d" % nsim, depth=6,
                      seed=ctx.seed + 1, timeout=3000, label="generation: random edit sequences of length <= 5 (simulation)")
         deep = [j for j in rs.json_lines if "edits" in j and len(j["edits"]) >= 3]
@@ -773,9 +781,9 @@ def _run_rest(ctx, pool, rb, rm):
         if k not in seen:
             seen.add(k)
             uniq_deep.append(j)
-    n_shallow = 130 if quick else 1500
-    n_deep = 60 if quick else 1500
-    n_std = 40 if quick else 700
+    n_shallow = 130 if quick else 1200
+    n_deep = 60 if quick else 1200
+    n_std = 40 if quick else 500
     chosen = _select(cases, n_shallow, ctx.seed) + uniq_deep[:n_deep] + _select(std_cases, n_std, ctx.seed + 7)
     ctx.note("generated_schemas_available", {"exhaustive_le2_edits": len(cases), "simulated_ge3_edits": len(uniq_deep),
                                              "standalone_le2_edits": len(std_cases)})
